@@ -195,6 +195,15 @@ def contWord (q t r : Int) : Bool :=
 def endWord (q t n : Int) : Int :=
   if n == 0 then 0 else if isU q then C.b2i (t == n) else if q == 0 then C.b2i (t == 0) else C.b2i (decide (t ≥ q))
 
+/-- the `next` function of an iterator (iter_int_range_next / iter_int_enum_next / iter_string_set_next /
+    iter_text_string_set_next): the word it yields and the advanced iterator, or `none` when exhausted -/
+def iterAdvance : Iter → Option (Int × Iter)
+  | .range nx last => if !isU nx && !isU last && nx ≤ last then some (nx, .range (C.add nx 1) last) else none
+  | .list items k =>
+    match items[k]? with
+    | some v => some (v, .list items (k + 1))
+    | none => none
+
 def setM (mem : List Int) (k : Nat) (v : Int) : List Int := mem.set k v
 def getM (mem : List Int) (k : Nat) : Int := mem.getD k 0
 
@@ -284,13 +293,9 @@ def step (env : Env) (i : Instr) (s : St) : Option St :=
                     iters := s.iters ++ [.list (st.take n.toNat).reverse 0] }
   | .iterNext, it :: st =>
       match s.iters[decIt it]? with
-      | some (.range nx last) =>
-        if !isU nx && !isU last && nx ≤ last then
-          some { s with pc := s.pc + 1, stack := nx :: 0 :: it :: st, iters := s.iters.set (decIt it) (.range (C.add nx 1) last) }
-        else next (C.UNDEF :: 1 :: it :: st)
-      | some (.list items k) =>
-        match items[k]? with
-        | some v => some { s with pc := s.pc + 1, stack := v :: 0 :: it :: st, iters := s.iters.set (decIt it) (.list items (k + 1)) }
+      | some iter =>
+        match iterAdvance iter with
+        | some (v, iter') => some { s with pc := s.pc + 1, stack := v :: 0 :: it :: st, iters := s.iters.set (decIt it) iter' }
         | none => next (C.UNDEF :: 1 :: it :: st)
       | none => none
   | .iterCondition, q :: t :: r :: st =>
